@@ -15,7 +15,7 @@ RULE = ('grammar family: abstract target Shape over every non-empty ordered subs
         'builtin else "Unknown object", several -> "not unique". distinct = (variant, model shape); non-trivial = model has '
         'same-named objects of unrelated classes or a nested definition')
 REQUIRED = {'models': 300, 'references_resolved': 1500, 'unknown_object_errors': 30, 'not_unique_errors': 20,
-            'builtin_resolutions': 20, 'nonconforming_same_name': 100, 'grammar_variants': 10, 'list_references': 200, 'models_with_numeric_names': 100}
+            'builtin_resolutions': 20, 'nonconforming_same_name': 100, 'grammar_variants': 10, 'list_references': 200, 'models_with_numeric_names': 100, 'models_with_falsy_builtins': 50}
 
 CONCRETE = ['Circle', 'Square', 'Wire']
 KW = {'Circle': 'circle', 'Square': 'square', 'Wire': 'wire', 'Other': 'other'}
@@ -56,17 +56,34 @@ NUM = {'a': '1', 'b': '2', 'c': '3', 'd': '4', 'e': '5', 'z': '26'}
 _mms = {}
 
 
-def get_mm(sub, builtins_spec, numeric=False):
+def get_mm(sub, builtins_spec, numeric=False, falsy=False):
     """metamodels are kept alive and reused so that many variants coexist in the process"""
     from textx import metamodel_from_str
-    key = (sub, builtins_spec, numeric)
+    key = (sub, builtins_spec, numeric, falsy)
     if key not in _mms:
         if len(_mms) > 200:
             _mms.clear()
         g = grammar(sub, numeric)
         builtins = {}
         if builtins_spec:
-            helper = metamodel_from_str(g)
+            hclasses = []
+            if falsy:
+                # builtins entries whose truth value is False (user classes with __bool__ / __len__)
+                class Circle:
+                    def __init__(self, parent=None, name=None):
+                        self.parent, self.name = parent, name
+
+                    def __bool__(self):
+                        return False
+
+                class Square:
+                    def __init__(self, parent=None, name=None):
+                        self.parent, self.name = parent, name
+
+                    def __len__(self):
+                        return 0
+                hclasses = [Circle, Square]
+            helper = metamodel_from_str(g, classes=hclasses)
             bm = helper.model_from_str(' '.join('%s %s' % (KW[c], NUM[n] if numeric else n) for n, c in builtins_spec))
             for d in bm.defs:
                 builtins[d.name] = d
@@ -118,7 +135,10 @@ def one(ctx, i, rep=None):
     if r.random() < 0.4:
         bspec = tuple(sorted((r.choice(names + ['z']), r.choice(CONCRETE + ['Other'])) for _ in range(r.randint(1, 3))))
         bspec = tuple(dict(bspec).items())
-    mm = get_mm(sub, bspec, numeric)
+    falsy = bool(bspec) and i % 5 == 2
+    if falsy:
+        ctx.count('models_with_falsy_builtins')
+    mm = get_mm(sub, bspec, numeric, falsy)
     builtins = {n: c for n, c in bspec}
 
     def candidates(name, target):
